@@ -1,7 +1,7 @@
 (* mdl.ml — script driver around the OCaml extraction of the Coq model (coq/extracted/model.ml).
    Executes the same line-oriented scripts as harness/cpp/drv.cpp and prints results in the same format. *)
 open Util
-let reset_all () = G_enc.g_enc := None; G_dec.g_dec := None; More.reset ()
+let reset_all () = G_enc.g_enc := None; G_dec.g_dec := None; G_exp.reset (); More.reset ()
 
 let () =
   (try while true do
@@ -14,6 +14,8 @@ let () =
       | "T" :: t -> G_time.cmd_time t
       | "D" :: t -> G_dec.cmd_dec t
       | "S" :: t -> G_val.cmd_struct t
+      | "X" :: t -> G_exp.cmd_exp t
+      | "F" :: t -> G_exp.cmd_file t
       | c :: t -> if not (More.cmd_more c t) then out ("? unknown command " ^ c)
     end
   done with End_of_file -> ());
